@@ -119,13 +119,23 @@ def run(tier, seed, drv):
     st.res.rule = RULE
     for sc in msuite.corpus(PID):
         check(st, msuite.fix_fractions(sc))
+    made = []
     for i in range(250 if tier == 'quick' else 6000):
-        check(st, family(rng_for(seed, PID, i)))
+        sc = family(rng_for(seed, PID, i))
+        check(st, sc)
+        if len(made) < (100 if tier == 'quick' else 1000):
+            made.append(sc)
+    # the same programs once more under `python -O` (judged only): nothing a pipe does may hang on an `assert`
+    msuite.judge_in_config(st, made, 'O', {}, ['-O'], params=params_of)
     return st.finish()
 
 
 def replay(data, drv):
     st = msuite.Suite(PID, drv, 'C13', TAGS, kind='float', judge_view=rational_view)
     sc = msuite.fix_fractions(data.get('scenario') or data['case']['scenario'])
+    case = data if data.get('scenario') else data.get('case', {})
+    if case.get('pyflags') is not None and case.get('config'):
+        msuite.judge_in_config(st, [sc], case['config'], case.get('env') or {}, case['pyflags'], params=params_of)
+        return st.finish()
     check(st, sc)
     return st.finish()
